@@ -285,7 +285,7 @@ class CFG:
         txt = head(a)
         if k in ('with_exit', 'finally'):
             txt = f'<{k} of> ' + txt
-        return f'{self.func.unit.relpath}:{getattr(a, "lineno", 0)} {txt}'
+        return f'{self.func.unit.relpath}:{int(round(getattr(a, "lineno", 0)))} {txt}'
 
     def nodes_where(self, pred):
         return [n for n in self.g.nodes if self.ast(n) is not None and pred(self.kind(n), self.ast(n))]
